@@ -1,7 +1,7 @@
 from vlib.core import *
 
 META = dict(
-    level_text="Bookkeeping of LOBPCGSolver::compute proved for ALL kernels (every outcome of the LDLT orthonormalisation, of the dense EigenSolver, of the inner SymGEigsSolver, every preconditioner, every column-norm test), A* and B* only assumed linear over a commutative ring: the tracked products AX = A X, BX = B X, AD = A D, BD = B D are loop invariants for every coefficient block (c17_products), residuals() = A X - B X diag(eigenvalues) for the iterate (c17_residuals), a Gram-B-orthonormal coefficient matrix yields X'BX = I for the update X C_X + R C_R + D C_D (c17_borth, c17_update_concat, c17_step_update), eigenvectors() IS that iterate and has k columns (c17_shape, full strength since the repair of F10), info = Success iff every residual column passed sqrt(sum r^2) < tol_div_n*n for EVERY prior object state (c17_success_tol, c17_status, c17_nonsuccess_reported; exits enumerated in c17_status_exits; an exhausted loop reports NoConvergence: c17_exhausted_noconvergence, since the repair of C17-stale-info), the inner solver's constructor guard (regenerated from HermEigsBase.h) holds on every Gram pencil the loop builds, for every k >= 1 (c17_inner_guard, c17_inner_guard_holds, c17_throw_only_numeric, since the repair of C17-inner-ncv), eigenvalues() ascending for distinct kernel outputs (c17_ascending_partial, c17_sorted_partial), removed-column indices fit every block (c17_directions_width, c17_removed_width). One recorded finding remains: a rare one-step loss of B-orthonormality that is never repaired (C17-borth-drift). That the values are the k SMALLEST of the pencil is convergence: oracle only.",
+    level_text="Bookkeeping of LOBPCGSolver::compute proved for ALL kernels (every outcome of the LDLT orthonormalisation, of the dense EigenSolver, of the inner SymGEigsSolver, every preconditioner, every column-norm test), A* and B* only assumed linear over a commutative ring: the tracked products AX = A X, BX = B X, AD = A D, BD = B D are loop invariants for every coefficient block (c17_products), residuals() = A X - B X diag(eigenvalues) for the iterate (c17_residuals), a Gram-B-orthonormal coefficient matrix yields X'BX = I for the update X C_X + R C_R + D C_D (c17_borth, c17_update_concat, c17_step_update), eigenvectors() IS that iterate and has k columns (c17_shape, full strength since the repair of F10), info = Success iff every residual column passed sqrt(sum r^2) < tol_div_n*n AND the returned block passed the B-orthonormality guard max|X'BX - I| < sqrt(eps), for EVERY prior object state (c17_success_tol, c17_success_borth, c17_passes_info, c17_status, c17_nonsuccess_reported; the guard read in exact arithmetic: c17_guard_meaning; a Gram matrix whose Cholesky factorisation fails ends the loop with NumericalIssue instead of feeding the failed factor to the inner solver; both since the repair of C17-gram-breakdown; exits enumerated in c17_status_exits; an exhausted loop reports NoConvergence: c17_exhausted_noconvergence, since the repair of C17-stale-info), the inner solver's constructor guard (regenerated from HermEigsBase.h) holds on every Gram pencil the loop builds, for every k >= 1 (c17_inner_guard, c17_inner_guard_holds, c17_throw_only_numeric, since the repair of C17-inner-ncv), eigenvalues() ascending for distinct kernel outputs (c17_ascending_partial, c17_sorted_partial), removed-column indices fit every block (c17_directions_width, c17_removed_width). One recorded finding remains: a rare one-step loss of B-orthonormality below the guard's threshold that is never repaired (C17-borth-drift). That the values are the k SMALLEST of the pencil is convergence: oracle only.",
     note="Lean kernel + propext/Classical.choice/Quot.sound; the numeric inner solvers (SimplicialLDLT, EigenSolver, SymGEigsSolver = C03) enter as arbitrary functions in the theorems and as recorded outputs in the correspondence; a C++ shadow of compute() built from the class's own private methods supplies those records and must equal the real object bit for bit at every cut; exact-arithmetic reading of the invariants (rounding makes AX drift from A X: bounded by the oracle, not proved); setConstraints not modelled",
     technique="Lean 4 proof (list induction, module/linear-map algebra) on a hand-written executable model generic in scalar, column type and kernels + differential correspondence at every iteration cut + long-double oracle",
     design="§5 C17", harnesses=['c17'])
@@ -11,7 +11,8 @@ def _ff(req): return 'all'   # discrete fields are printed as name=value (never 
 def run(tier, seed, replay=None):
     R = Run('C17', tier, seed)
     R.trusted = TRUSTED_COMMON + ['inner numeric solvers (Eigen SimplicialLDLT / EigenSolver, Spectra SymGEigsSolver) are kernels: their outputs are recorded from the real run, their specification (B-orthonormal output, Gram-orthonormal Ritz vectors) is a hypothesis of c17_borth, covered by C03 for the Spectra part',
-                                  'harness shadow of compute(): a statement-by-statement copy using the real private methods; checked bit-identical to the real compute() at every cut (field sh=1)']
+                                  'harness shadow of compute(): a statement-by-statement copy using the real private methods; checked bit-identical to the real compute() at every cut (field sh=1)',
+                                  'the Cholesky outcome of the Gram matrix (DenseCholesky::info()) is a recorded kernel output; the B-orthonormality guard is recomputed by the model (threshold sqrt(eps) handed over by the harness)']
     R.assumptions = ['exact arithmetic over a commutative ring for the invariants; the floating-point drift of the tracked products is bounded by the oracle only',
                      'flag_with_constraints = false (setConstraints is outside the property)']
     if replay:
@@ -23,18 +24,26 @@ def run(tier, seed, replay=None):
     r = standard_corr(R, 'c17', 'lobpcg-cuts', soft_ulps=16, float_fields=_ff, timeout=3000)
     if r:
         R.cov['distinct_nontrivial'] = distinct_count(os.path.join(r['out'], 'requests.txt'))
-        R.cov['rule'] = ('cases: k in {1..6,10}, n = 5k+1 .. 5k+15 (quick) / 5k+41 (thorough), A in {tridiagonal, band-3, shifted Laplacian, arrow} symmetric with well separated '
+        R.cov['rule'] = ('general stream: k in {1..6,10}, n = 5k+1 .. 5k+15 (quick) / 5k+41 (thorough), A in {tridiagonal, band-3, shifted Laplacian, arrow} symmetric with well separated '
                          'small eigenvalues, B SPD tridiagonal or none, T = diag(A)^-1 or none, dense random X0, tol_div_n in {1e-3,1e-5,1e-7,1e-9}; every cut maxit = 0..J is one '
-                         'request (real compute(maxit) on a fresh object vs the model fed with the recorded kernel outputs); oracle on the run with maxit = n and on a second compute(); '
-                         'distinct request lines counted')
+                         'request (real compute(maxit) on a fresh object vs the model fed with the recorded kernel outputs); oracle on the run with maxit = n and on a second compute(). '
+                         'preconditioner stream (9 / 72 cases): same generator with T in {Jacobi, poor diagonal SPD (entries 0.05..5.05, unrelated to A), poor tridiagonal SPD}, cuts + oracle. '
+                         'graded family (n = 60..64, A = diag(1,3,5,..) + couplings at distance 1 and 7, B SPD tridiagonal or none): loose-tolerance stream (16 / 160 cases, tol*n in {6,3,1.8}, '
+                         'k = 3..6, T none/Jacobi/poor; columns lock at different iterations and unlock again; cuts 0..12 for the first 60, oracle on all) and near-convergence stress stream '
+                         'with the Jacobi preconditioner (24 / 160 cases at tol_div_n in {1e-12,1e-13}, 12 / 1200 at the default 1e-7, k = 4..6: oracle on all, whole-run correspondence (one cut '
+                         'at maxit = n) for the first two and for up to three runs that end in the Gram-matrix exit or a failed guard); crafted exits (exact start with tol 0, one column left, tol 0, '
+                         'indefinite B making the B-orthonormality guard fail). distinct request lines counted')
         R.cov['exhaustive'] = False
         hc = R.cov.get('harness_counters', {})
         tags = {'exit converged / exhausted (info_0 / info_3)': 'c17:info_0', 'exit orthRFailed (LDLT of R\'BR fails)': 'c17:exit_orthR_failed', 'exit rrThrew (inner solver throws)': 'c17:exit_threw',
                 'exit orthDFailed (LDLT of D\'BD fails)': 'c17:exit_orthD_failed', 'exit rrFailed (inner solver not converged)': 'c17:exit_rr_notconverged',
+                'exit gramFailed (Cholesky of the Gram matrix fails)': 'c17:exit_gram_failed', 'finalize: all columns pass, B-orthonormality guard fails': 'c17:final_guard_failed',
+                'finalize: all columns pass, guard passes': 'c17:final_guard_passed', 'iteration where a locked column is unlocked again': 'c17:iter_with_unlocked_column',
                 'iteration with removed (converged) columns': 'c17:iter_with_removed_columns', 'sort_epairs with tied keys': 'c17:sortep_ties'}
         R.cov['model_branches_reached'] = sorted(k for k, v in tags.items() if hc.get(v, 0) > 0)
         R.cov['model_branches_uncovered'] = sorted(k for k, v in tags.items() if hc.get(v, 0) == 0) + ['initial orthogonalizeInPlace(X) fails (rank-deficient X0: outside the quantifier; the real code then multiplies the 0x0 BX: Eigen assertion)', 'initial EigenSolver fails']
-        R.cov['oracle'] = ('on Success: eigenvalues ascending; |theta_i - lambda_i| <= 4 tol n / sqrt(lambda_min(B)) + 1e-9(1+|lambda_i|) vs long-double GeneralizedSelfAdjointEigenSolver; '
+        R.cov['oracle'] = ('on Success: eigenvalues ascending; |theta_i - lambda_i| <= 4 tol n / sqrt(lambda_min(B)) + 1e-9(1+|lambda_i|) vs long-double GeneralizedSelfAdjointEigenSolver when that bound is below '
+                           'a quarter of the smallest gap of lambda_0..lambda_k, otherwise (loose tolerance) every theta_i within the bound of SOME eigenvalue of the pencil and theta_i >= lambda_i - bound; '
                            'max|X\'BX - I| <= 1e-8 (internal X); eigenvectors() n x k and B-orthonormal (F10); max|residuals() - (A X - B X diag(theta))| <= 1e-9 n (|A|+|theta||B|) max(1,|X|); '
                            'column norms < tol n; all outputs finite; no exception for valid input (C17-inner-ncv); second compute() not stale (C17-stale-info)')
     return R.finish()
